@@ -1,4 +1,5 @@
 import Poly.Proofs.EthRules
+import Poly.Proofs.EthSizeTables
 /-!
 # C28 — Ethereum header rules match the Ethereum specification
 
@@ -7,8 +8,10 @@ literals, the fork chain of `SyncBlockHeader`, the fork heights, the struct fiel
 are `Poly.Generated.EthConsts`, regenerated from the Go source on every run, so every theorem below is re-checked
 against what the code says now. `Poly.Spec.Ethereum` is written from the Yellow Paper / EIP texts.
 
-Not proved here (tied by the correspondence instead): that the 2 × 2048 table entries equal the computed sizes
-(primality of numbers around 10⁸ is out of reach of kernel evaluation without `native_decide`), and Keccak-256.
+The 2 × 2048 table entries are proved equal to the computed sizes from generated certificates (a non-trivial divisor
+for every larger candidate, a Pratt chain for the entry's item count) that a Lean checker, evaluated by the kernel
+(`decide +kernel`, no `native_decide`), accepts; the checker is proved sound (`Poly.Proofs.EthSizeCert`, Lucas' test from
+Mathlib). Not proved here: Keccak-256 (external).
 -/
 namespace Poly.Props.C28
 open Poly.Model.EthRules Poly.Model.EthHeaderRlp Poly.Spec Poly.Generated Poly.Proofs.EthRules
@@ -169,6 +172,27 @@ theorem sizes_above_table (block : Nat) (hb : 2048 ≤ block / 30000) :
     exact dataset_size_computed_eq_spec _ sz h
   · simp only [cacheSize, e1, e2, hn, if_false] at h
     exact cache_size_computed_eq_spec _ sz h
+
+/-- The generated size tables equal the computed sizes: for every epoch below 2048 the table entry is exactly what
+`calcDatasetSize` / `calcCacheSize` return (4096 entries; kernel-checked primality and compositeness certificates). -/
+theorem size_tables_eq_computed (epoch v : Nat) :
+    (EthConsts.datasetSizes[epoch]? = some v → calcDatasetSize epoch = some v) ∧
+    (EthConsts.cacheSizes[epoch]? = some v → calcCacheSize epoch = some v) :=
+  ⟨Poly.Proofs.EthSizeTables.datasetTable_eq_calc epoch v, Poly.Proofs.EthSizeTables.cacheTable_eq_calc epoch v⟩
+
+/-- `datasetSize` and `cacheSize` agree with the Ethash appendix for EVERY block number (table and computed branch). -/
+theorem sizes_eq_spec (block : Nat) :
+    (∀ sz, datasetSize block = some sz → Ethereum.IsDatasetSize block sz) ∧
+    (∀ sz, cacheSize block = some sz → Ethereum.IsCacheSize block sz) := by
+  have e1 : EthConsts.epochLength.toNat = 30000 := rfl
+  have e2 : EthConsts.maxEpoch.toNat = 2048 := rfl
+  by_cases hb : block / 30000 < 2048
+  · constructor <;> intro sz h
+    · simp only [datasetSize, e1, e2, hb, if_true] at h
+      exact dataset_size_computed_eq_spec _ sz ((size_tables_eq_computed _ sz).1 h)
+    · simp only [cacheSize, e1, e2, hb, if_true] at h
+      exact cache_size_computed_eq_spec _ sz ((size_tables_eq_computed _ sz).2 h)
+  · exact sizes_above_table block (by omega)
 
 /-- Both generated tables have `maxEpoch = 2048` entries (every epoch below the computed branch has one). -/
 theorem size_tables_complete : EthConsts.datasetSizes.size = 2048 ∧ EthConsts.cacheSizes.size = 2048 := by
